@@ -11,6 +11,11 @@
 //! `serde.cli <hex>`   JSON text (hex) → `automerge import` → `automerge export` → canonical form
 //!                     (`< ok …` | `< import-error` | `< parse-error`)
 //!
+//! `amharness run serde … --floats safe` keeps the float literals of the CLI stream inside the
+//! class every decimal → f64 algorithm converts identically; without it the stream also contains
+//! literals on which the CLI binary (serde_json WITHOUT `float_roundtrip`) is off by one ulp or
+//! overflows — oracle lines `! C33 [float-text-parse] …`, a finding, not a harness artefact.
+//!
 //! spec grammar (no spaces):
 //!   val   := N | T | F | I<int>; | U<nat>; | D<16 hex>; | C<int>,<int>; | Z<int>;
 //!          | S<hex>; | B<hex>; | X<hex>; | '{' entry* '}' | '[' elem* ']'
